@@ -101,10 +101,13 @@ def run_bringup(ncp_v, path_kind="serial", second_reset=False, fault=None):
             elif second_reset == "app":
                 # what ControllerApplication._reset() does; on a socket path on which the start-up reset is seen the NCP
                 # (zigbeed) restarts by itself during the start-up wait of this second round too
-                s.ez.stop_ezsp()
+                import types
+                import bellows.zigbee.application as A
+                from bellows.config import CONF_EZSP_CONFIG
                 if path_kind == "socket-seen":
                     s.loop.call_later(0.3, lambda: (s.ncp.reset(0x0B), s.line.flush()))
-                await s.ez.startup_reset()
+                # the library's own later reset: ControllerApplication._reset(self) on an object that holds this EZSP
+                await A.ControllerApplication._reset(types.SimpleNamespace(_ezsp=s.ez, config={CONF_EZSP_CONFIG: {}}))
             else:
                 await s.ez.reset()
                 await s.ez.version()
@@ -119,6 +122,10 @@ def run_bringup(ncp_v, path_kind="serial", second_reset=False, fault=None):
         ph["handler"] = s.ez._protocol.VERSION
         if ph["done"] == "ok":
             m2 = len(raw_seen)
+            # commands the library itself issued in this phase after the negotiation (the later reset writes the
+            # configuration): the sequence number of the next command is counted from there
+            vidx = [i for i in range(mark, m2) if _fid(raw_seen[i]) == 0]
+            ph["after_negotiation"] = m2 - (vidx[-1] + 1) if vidx else 0
             try:
                 await s.ez.getConfigurationValue(configId=1)
                 ph["later"] = raw_seen[m2].hex() if len(raw_seen) > m2 else None
@@ -250,7 +257,7 @@ class Check(PropertyCheck):
             b = bytes.fromhex(later)
             n = 3 if layout_of(last["handler"]) == 4 else 5
             # sequence number of the first command after negotiation, then frame-control bytes and id
-            z += [n] + list(b[:n])
+            z += [n, (b[0] - last.get("after_negotiation", 0)) % 256] + list(b[1:n])
         else:
             z += [-1]
         return z
@@ -319,6 +326,8 @@ class Check(PropertyCheck):
             cfg = ph.get("config")
             if cfg is not None and cfg != "ok" and not (case["fault"] is not None and "Timeout" in cfg):
                 return f"NCP v{v}: writing the default configuration failed: {cfg}"
+            if case["path"] in ("serial", "socket-absent") and ph["tag"] == "second" and not ph["rst_written"] and case["fault"] is None:
+                return f"NCP v{v} ({case['path']}): the later reset wrote no RST frame"
             if case["path"] in ("serial", "socket-absent", "socket-late") and ph["tag"] == "first" and not ph["rst_written"]:
                 return "no ASH reset request (RST) was written during bring-up"
         return None
